@@ -88,6 +88,8 @@ pub fn check_trace(s: &Script, tr: &Trace, rep: &mut Report) -> Outcome {
     let mut dead_ids: HashSet<u64> = HashSet::new(); // ids already handed to a callback
     let mut silently_droppable: HashSet<u64> = HashSet::new();
     let mut maybe_reject: HashSet<u64> = HashSet::new();
+    // entries that had a vetoed write since they were written: their deadline must be unaffected
+    let mut vetoed_ids: HashSet<u64> = HashSet::new();
     let mut cleared_ids: HashSet<u64> = HashSet::new();
     // metric shadows since the last clear
     let (mut m_lookups, mut m_dropped_sets, mut m_pop_rejects, mut m_pushed_keys) = (0u64, 0u64, 0u64, 0u64);
@@ -197,6 +199,7 @@ pub fn check_trace(s: &Script, tr: &Trace, rep: &mut Report) -> Outcome {
                                 // re-charges the resident key: an in-place cost update)
                                 out.vetoes += 1;
                                 step_is_update = true;
+                                vetoed_ids.insert(cur.id);
                                 if only_update {
                                     if ret != Some(false) {
                                         fail!("C09", "veto/if-present-returned-true", "vetoed insert_if_present returned {ret:?}");
@@ -476,6 +479,9 @@ pub fn check_trace(s: &Script, tr: &Trace, rep: &mut Report) -> Outcome {
                                     let is_expired = e.deadline().map_or(false, |dl| dl <= t);
                                     if o.tick_at.is_some() {
                                         // swept by the cleanup tick: only expired entries, never early
+                                        if !is_expired && vetoed_ids.contains(&e.id) {
+                                            also!("C09", "veto/expiry-index-changed", format!("key {key}: swept at the deadline of a vetoed write, not at its own ({:?})", e.deadline()));
+                                        }
                                         if !is_expired {
                                             fail!("C05", "cleanup/removed-unexpired", "tick at {t} reclaimed key {key} #{id:x} whose deadline is {:?} (ttl {} ns)", e.deadline(), e.d);
                                             also!("C04", "cleanup/removed-unexpired", format!("key {key} swept before its deadline / without one"));
@@ -560,6 +566,9 @@ pub fn check_trace(s: &Script, tr: &Trace, rep: &mut Report) -> Outcome {
         if let Some(t) = o.tick_at {
             for e in slots.values() {
                 if let Some(dl) = e.deadline() {
+                    if dl + NS + interval <= t && vetoed_ids.contains(&e.id) {
+                        also!("C09", "veto/expiry-index-changed", format!("key {} #{:x}: a vetoed write changed when the entry is reclaimed: deadline {dl} unchanged, still resident at tick {t}", e.key, e.id));
+                    }
                     if dl + NS + interval <= t {
                         fail!("C05", "cleanup/not-reclaimed-in-bound", "key {} #{:x}: deadline {dl}, tick at {t} (interval {} ms): still resident after deadline + 1 s + interval", e.key, e.id, interval / 1_000_000);
                     }
